@@ -10,9 +10,11 @@ simulated threads keeps seeing the real libraries.
 """
 from __future__ import annotations
 
+import atexit as _atexit
 import errno
 import os as _os
 import random
+import selectors as _selectors
 import signal as _signal
 import subprocess as _subprocess
 import sys as _sys
@@ -632,19 +634,43 @@ class FakeSys:
 
 # ============================================================================
 def install(kernel: SimKernel):
-    """Install the proxies in ropt.plugins.optimizer.external; returns the undo function."""
+    """Install the proxies in the namespaces of the external plug-in (every loaded module under
+    ropt.plugins.optimizer); returns the undo function.
+
+    The seam follows the import style of the code: a module object (``import os``) is replaced by its
+    proxy, and a name imported from such a module (``from os import kill``, ``from subprocess import
+    Popen``, ``from selectors import DefaultSelector``) by the proxy's attribute of the same name."""
+    import ropt.plugins as _plugins_pkg
     from ropt.plugins.optimizer import external
 
     from . import backend
 
-    saved = {name: getattr(external, name) for name in ("os", "selectors", "subprocess", "time", "atexit", "sys", "PluginManager")}
-    external.os = FakeOS(kernel)
-    external.selectors = FakeSelectors(kernel)
-    external.subprocess = FakeSubprocess(kernel)
-    external.time = FakeTime(kernel)
-    external.atexit = FakeAtexit(kernel)
-    external.sys = FakeSys(kernel)
-    external.PluginManager = backend.make_plugin_manager
+    fakes = {"os": (_os, FakeOS(kernel)), "selectors": (_selectors, FakeSelectors(kernel)),
+             "subprocess": (_subprocess, FakeSubprocess(kernel)), "time": (_time, FakeTime(kernel)),
+             "atexit": (_atexit, FakeAtexit(kernel)), "sys": (_sys, FakeSys(kernel))}
+    by_identity: dict[int, Any] = {}
+    for real, fake in fakes.values():
+        by_identity[id(real)] = fake
+        for name, member in vars(type(fake)).items():
+            if name.startswith("_") or not callable(member):
+                continue
+            target = getattr(real, name, None)
+            if target is not None and (callable(target) or isinstance(target, type)):
+                by_identity[id(target)] = getattr(fake, name)
+    by_identity[id(_plugins_pkg.PluginManager)] = backend.make_plugin_manager
+
+    saved: list[tuple[Any, str, Any]] = []
+    for modname, mod in list(_sys.modules.items()):
+        if mod is None or not (modname == external.__name__ or modname.startswith("ropt.plugins.optimizer.")):
+            continue
+        for name, value in list(vars(mod).items()):
+            repl = by_identity.get(id(value))
+            if repl is None:
+                continue
+            if value is _plugins_pkg.PluginManager and mod is not external and not hasattr(mod, "_PluginOptimizer"):
+                continue
+            saved.append((mod, name, value))
+            setattr(mod, name, repl)
 
     def child_target(k: SimKernel, argv: list[str]):
         def body():
@@ -654,7 +680,7 @@ def install(kernel: SimKernel):
     kernel.child_target = child_target
 
     def undo() -> None:
-        for name, val in saved.items():
-            setattr(external, name, val)
+        for mod, name, val in saved:
+            setattr(mod, name, val)
 
     return undo
